@@ -389,6 +389,94 @@ Qed.
 
 Transparent le_enc.
 
+(* with the RANGEPROOF bit every output is followed by its two proofs; the signature form is then parsed by
+   its own reader (outputs with proofs), which gives injectivity on version, inputs, outputs, proofs, locktime *)
+Definition p_out_rp : parser (txout * (bytes * bytes)) := o <- p_out ;; pr <- p_proofs ;; ret (o, pr).
+Definition p_sig_rp : parser (N * list txin * list (txout * (bytes * bytes)) * N) :=
+  ver <- p_le 4 ;; nin <- p_varint ;; ins <- p_list p_in nin ;;
+  nout <- p_varint ;; outs <- p_list p_out_rp nout ;; lt <- p_le 4 ;; ret (ver, ins, outs, lt).
+
+Lemma p_out_rp_app o r : wf_out o = true ->
+  p_out_rp (ser_out false true o ++ r) = Some ((strip_out o, out_proofs o), r).
+Proof.
+  intro W. pose proof (wf_out_parts o W) as (_ & _ & _ & _ & Hr & Hs).
+  unfold p_out_rp, bind.
+  assert (E : ser_out false true o ++ r = ser_out false false o ++ (var_slice (o_rp o) ++ var_slice (o_sp o)) ++ r).
+  { unfold ser_out. cbn [app]. rewrite app_nil_r. rewrite <- !app_assoc. reflexivity. }
+  rewrite E.
+  rewrite (p_out_app o _ W). unfold p_proofs, bind. rewrite <- app_assoc.
+  rewrite p_var_slice_app by exact Hr. rewrite p_var_slice_app by exact Hs. reflexivity.
+Qed.
+
+Lemma p_sig_rp_ser c rest : wf_tx c = true ->
+  p_sig_rp (ser_tx false true true true c ++ rest) =
+  Some ((t_version c, map strip_in (t_ins c), map (fun o => (strip_out o, out_proofs o)) (t_outs c), t_locktime c), rest).
+Proof.
+  intro W. apply wf_tx_parts in W as (Hv & Hl & Hni & Hno & H1 & H2).
+  unfold p_sig_rp, ser_tx, bind. cbn [andb negb app]. rewrite <- !app_assoc.
+  rewrite p_le_app by (cbn; unfold two32 in *; lia).
+  rewrite p_varint_app by lia.
+  rewrite (p_list_app_map ser_in strip_in p_in);
+    [| intros; apply p_in_app; apply H1; assumption | intros; apply ser_in_nonempty; apply H1; assumption].
+  rewrite p_varint_app by lia.
+  rewrite (p_list_app_map (ser_out false true) (fun o => (strip_out o, out_proofs o)) p_out_rp);
+    [| intros; apply p_out_rp_app; apply H2; assumption | intros; apply ser_out_nonempty; apply H2; assumption].
+  cbn [app]. rewrite p_le_app by (cbn; unfold two32 in *; lia). reflexivity.
+Qed.
+
+Lemma strip_sig_in i i' : strip_in i = strip_in i' -> sig_in_view i = sig_in_view i'.
+Proof.
+  intro E1. unfold strip_in in E1. unfold sig_in_view, raw_index. injection E1 as X1 X2 X3 X4 X5 X6.
+  rewrite X1, X2, X3, X4, X5, X6. reflexivity.
+Qed.
+
+Opaque le_enc.
+Theorem legacy_rp_sensitive t t' idx script script' ht c c' p :
+  ht_rp ht = true ->
+  legacy_tx t idx script ht = Some c -> legacy_tx t' idx script' ht = Some c' ->
+  wf_tx c = true -> wf_tx c' = true ->
+  preimage_legacy t idx script ht = Some p -> preimage_legacy t' idx script' ht = Some p ->
+  sig_view true c = sig_view true c'.
+Proof.
+  intros RP C C' W W'. unfold preimage_legacy. rewrite C, C', RP.
+  intros P P'. injection P as P. injection P' as P'. rewrite <- P' in P.
+  apply app_inv_len_tail in P as [P _]; [|reflexivity].
+  pose proof (p_sig_rp_ser c [] W) as Q. pose proof (p_sig_rp_ser c' [] W') as Q'.
+  rewrite P in Q. rewrite Q in Q'. injection Q' as Ev Ei Eo El.
+  unfold sig_view. rewrite Ev, El.
+  assert (A : map sig_in_view (t_ins c) = map sig_in_view (t_ins c')).
+  { clear -Ei. revert Ei. generalize (t_ins c) (t_ins c'). induction l as [|i l IH]; intros [|i' l'] E; try discriminate; [reflexivity|].
+    cbn [map] in *. assert (E1 : strip_in i = strip_in i') by congruence. assert (E2 : map strip_in l = map strip_in l') by congruence.
+    rewrite (IH _ E2), (strip_sig_in _ _ E1). reflexivity. }
+  assert (B : map out_base (t_outs c) = map out_base (t_outs c') /\ map out_proofs (t_outs c) = map out_proofs (t_outs c')).
+  { clear -Eo. revert Eo. generalize (t_outs c) (t_outs c'). induction l as [|o l IH]; intros [|o' l'] E; try discriminate; [split; reflexivity|].
+    cbn [map] in *. assert (E1 : strip_out o = strip_out o') by congruence. assert (E1' : out_proofs o = out_proofs o') by congruence.
+    assert (E2 : map (fun o => (strip_out o, out_proofs o)) l = map (fun o => (strip_out o, out_proofs o)) l') by congruence.
+    destruct (IH _ E2) as [I1 I2]. rewrite I1, I2, (strip_base _ _ E1), E1'. split; reflexivity. }
+  destruct B as [B1 B2]. rewrite A, B1, B2. reflexivity.
+Qed.
+Transparent le_enc.
+
+(* any hash type: equal legacy pre-images force equal covered views *)
+Theorem legacy_sensitive_any t t' idx script script' ht c c' p :
+  legacy_tx t idx script ht = Some c -> legacy_tx t' idx script' ht = Some c' ->
+  wf_tx c = true -> wf_tx c' = true ->
+  preimage_legacy t idx script ht = Some p -> preimage_legacy t' idx script' ht = Some p ->
+  sig_view (ht_rp ht) c = sig_view (ht_rp ht) c'.
+Proof.
+  intros C C' W W' P P'. destruct (ht_rp ht) eqn:RP.
+  - eapply legacy_rp_sensitive; eassumption.
+  - eapply legacy_sensitive; eassumption.
+Qed.
+
+(* non-vacuity: the hypotheses are met by a transaction with a confidential output and the RANGEPROOF bit *)
+Example legacy_rp_sensitive_applies :
+  let i := mk_in (repeat x01 32) 0 5 [] [] false [] None [] [] in
+  let o := mk_out (x01 :: repeat x01 32) (x01 :: repeat x00 8) [] [x00] [x01] [x01] in
+  let t := mk_tx 2 0 0 [i] [o] in
+  exists c p, ht_rp 0x41 = true /\ legacy_tx t 0 [] 0x41 = Some c /\ wf_tx c = true /\ preimage_legacy t 0 [] 0x41 = Some p.
+Proof. cbn. eexists. eexists. repeat split. Qed.
+
 (* the copy that is hashed is well formed whenever the transaction is and no earlier output is blanked *)
 Lemma set_script_wf s i : wf_in i = true -> lenN s < two64 -> wf_in (set_script s i) = true.
 Proof.
